@@ -116,7 +116,7 @@ func (cc *checkCtx) replay(o *Obligation) (string, bool) {
 	// prefer a small input stream: re-solve with the stream bounded (a model the harness can build)
 	if _, hasIn := model["(blen ghost0.in)"]; hasIn {
 		if n, ok := parseBVModel(model["(blen ghost0.in)"]); !ok || n.Cmp(big.NewInt(40)) > 0 {
-			q := m.queryOf[o]
+			q := m.fullQuery(m.smtRef, o)
 			if i := strings.LastIndex(q, "(check-sat)"); i >= 0 {
 				q2 := q[:i] + "(assert (bvule (blen ghost0.in) #x0000000000000028))\n" + q[i:]
 				if r := cc.s.smt.solve(q2, o.Name()+"#small"); r.Status == "sat" {
@@ -395,7 +395,7 @@ func (cc *checkCtx) confirm(o *Obligation, rio *replayIO, out string) (bool, str
 		return false, "safety obligation failed in the model but the real code did not panic on the model's input"
 	}
 	fixes := cc.resultFixes(o, rio, out)
-	q := m.queryOf[o]
+	q := m.fullQuery(m.smtRef, o)
 	i := strings.LastIndex(q, "(check-sat)")
 	if i < 0 {
 		return false, "no query"
